@@ -19,9 +19,9 @@ META = dict(
                 "compute_permutation=False, the outputs are the selected matrix entries and no output depends on uninitialised np.empty cells; "
                 "(c) *_framewise: window count, the exact slices handed to the non-framewise function, its results copied per window, NaN in every "
                 "metric for windows with a silent source, documented arity for empty input; (d) the real _safe_db on symbolic energies and the real "
-                "_bss_source_crit / _bss_image_crit on symbolic component vectors (not stubbed): a ratio is +inf exactly when its error component is "
+                "_bss_source_crit on symbolic component vectors (not stubbed): a ratio is +inf exactly when its error component is "
                 "identically zero, also after a common positive factor (what scaling an estimate does to every energy).",
-    bounds="nsrc <= 3 (perm), flen = 2, nsampl <= 3 (decomposition); framewise: nsrc 2, 6-8 samples, window 4, hop 2, all placements of a silent window; criteria: component vectors of length 1 (image criteria: thorough tier only)",
+    bounds="nsrc <= 3 (perm), flen = 2, nsampl <= 3 (decomposition); framewise: nsrc 2, 6-8 samples, window 4, hop 2, all placements of a silent window; criteria: _bss_source_crit with component vectors of length 1 (_bss_image_crit not registered: too slow)",
     stubs=["_project (arbitrary vectors), _bss_decomp_mtifilt(_images) / _bss_source_crit / _bss_image_crit (arbitrary criteria), bss_eval_sources / "
            "bss_eval_images inside the framewise variants (arbitrary per-window results); np.empty returns fresh unconstrained variables"],
     assumptions=["NOT claimed (not applicable to this technique): scale invariance of SDR/SIR/SAR, 'perfect estimate => identity permutation with very high "
@@ -298,8 +298,7 @@ def job_crit(images, n=2):
 def jobs(tier):
     q = tier == 'quick'
     js = [job_safe_db(), job_crit(False, 1)]
-    if not q:
-        js.append(job_crit(True, 1))     # ~300 s of non-linear real arithmetic: thorough tier only
+    # job_crit(True, 1) (_bss_image_crit) is not registered: 130-600 s of non-linear real arithmetic, it hit the job time limit under load
     for (nsrc, ns) in ([(1, 2), (2, 2)] if q else [(1, 2), (2, 2), (2, 3), (3, 3)]):
         js.append(job_decomposition(nsrc, ns))
     for images in (False, True):
